@@ -166,6 +166,33 @@ pub fn replay(fctx: &fuzz::Ctx, table: &[Value], seed: u64, reps: usize, rep: &m
                 Outcome::Ok(view) => {
                     rep.distinct.insert(hash_of(&view["original"].to_string()));
                     check_view(ty, &row, view, &case, rep);
+                    // Valve: the same decoded response with each optional list absent / empty / as decoded, crossed with the player
+                    // and bot counts at their ends (values generated directly: "absent" and "empty" are different things, whatever the counts)
+                    if *ty == "valve" && n < 6 {
+                        let orig = crate::valve::strip_enum_wrappers(&view["original"]).clone();
+                        for players in ["absent", "empty", "kept"] {
+                            for rules in ["absent", "kept"] {
+                                for online in [0u64, 1, 255] {
+                                    let mut v = orig.clone();
+                                    match players {
+                                        "absent" => v["players"] = Value::Null,
+                                        "empty" => v["players"] = json!([]),
+                                        _ => {}
+                                    }
+                                    if rules == "absent" {
+                                        v["rules"] = Value::Null;
+                                    }
+                                    v["info"]["players_online"] = json!(online);
+                                    v["info"]["players_bots"] = json!([0u64, 255][n % 2]);
+                                    let Ok(resp) = serde_json::from_value::<gamedig::protocols::valve::Response>(v) else { continue };
+                                    let view2 = view_json(&resp);
+                                    rep.evaluations += 1;
+                                    rep.distinct.insert(hash_of(&view2["original"].to_string()));
+                                    check_view(ty, &row, &view2, &json!({"entry": "valve (generated)", "players": players, "rules": rules, "players_online": online}), rep);
+                                }
+                            }
+                        }
+                    }
                     if n == 0 {
                         rep.sample(&json!({"ty": ty, "id": id, "common": view["common"]}));
                     }
